@@ -15,9 +15,6 @@ variable {α : Type} [Inhabited α]
 
 /-! ### the neighbourhood set -/
 
-theorem Safe.and_val {β : Type} {x : Ck β} {P : β → Prop} (h : Safe x P) : Safe x (fun a => P a ∧ a = x.val) :=
-  ⟨h.1, h.2, rfl⟩
-
 theorem setIns_mem {l : List Int} {x c : Int} (h : c ∈ setIns l x) : c = x ∨ c ∈ l := by
   unfold setIns at h
   split at h
